@@ -77,6 +77,7 @@ def run(ctx):
     out = P.run_property(ctx, MASK, monitor, 'ledger', [
         ('G-exec', 250, 4000, {}),
         ('G-exec-over', 120, 2000, dict(overcommit=True)),
+        ('G-exec-overlap', 40, 600, dict(overlap=True)),
         ('G-exec-badpool', 60, 1000, dict(p_bad=1.0, bad_kinds=['asg-pool', 'susp-badpool'], bad_early=False)),
     ], nontrivial=lambda run: any(e.get('results') for e in run.trace))
     out['rule'] = ('G-exec command fuzzer (see C03) incl. simultaneous completions, kills and suspensions and commands with '
